@@ -10,6 +10,64 @@ from harness.common import *
 from harness.opcorr import *
 
 
+def highdim_pass(ctx):
+    """d = 4, 5: the structured operands where shortcuts that are valid up to three dimensions stop being valid
+    (non-simple k-vectors, non-versor left operands with scalar / vector right operands, results with grade >= 4
+    parts); real code only, generated function vs. composition of elementary operators as polynomial maps"""
+    rng = ctx.rng
+    algs = [make_algebra([1, 1, 1, 1]), make_algebra([1, -1, -1, -1]),
+            make_algebra([0, 1, 1, 1], basis=["e", "e1", "e2", "e3", "e0", "e01", "e02", "e03", "e12", "e31", "e23", "e032", "e013", "e021", "e123", "e0123"])]
+    if not ctx.quick:
+        algs.append(make_algebra([1, 1, 1, 1, -1]))
+    alg5 = make_algebra([1, 1, 1, 1, 1])
+    for alg in algs + [alg5]:
+        d = alg.d
+        full = list(alg.canon2bin.values())
+        g = {r: [k for k in full if grade(k) == r] for r in range(d + 1)}
+        even = [k for k in full if grade(k) % 2 == 0]
+        if alg is alg5:
+            xs = [g[2][:4] + g[4][:1], [0] + g[3][:3], [3, 12, 17]]
+            ys = [[0], g[1][:3]]
+            ns = [[7, 25], [3, 12], g[2][:5]]
+        else:
+            xs = [g[2], [0] + g[3], g[1] + g[2][:3], even, [3, 12]]
+            ys = [[0], g[1], [0] + g[1][:2], g[2][:2]]
+            ns = [g[2], [3, 12], g[3], g[1] + g[2][:2], [5, 10]]
+            if ctx.quick:
+                xs = rng.sample(xs, 3) + [g[2]] if g[2] not in xs[:0] else xs
+                xs = [list(t) for t in dict.fromkeys(tuple(t) for t in xs)]
+        desc = {'sig': [int(v) for v in alg.signature], 'pass': 'highdim'}
+        for kx in xs:
+            x = tracer_mv(alg, kx, 0)
+            for ky in ys:
+                y = tracer_mv(alg, ky, 1000)
+                for op, real, comp in (('sw', lambda: x >> y, lambda: x * y * ~x), ('proj', lambda: x @ y, lambda: (x | y) * ~y)):
+                    case = {**desc, 'op': op, 'kx': kx, 'ky': ky}
+                    ctx.case(case, tag=f'highdim:{op}:d{d}')
+                    try:
+                        zd, exp = mv_to_dict(real()), mv_to_dict(comp())
+                    except Exception as e:
+                        ctx.violation('raises', case, 'a multivector', repr(e)[:300], key=f'{op}:raises:{type(e).__name__}')
+                        continue
+                    if not dict_equal(zd, exp):
+                        missing = sorted(set(exp) - set(zd))
+                        ctx.violation('composition', {**case, 'blades_missing': missing}, canon_dict(exp), canon_dict(zd),
+                                      key=f'{op}:composition' + (':dropped-blade' if missing else ''))
+        for kx in ns:
+            x = tracer_mv(alg, kx, 0)
+            case = {**desc, 'op': 'normsq', 'kx': kx}
+            ctx.case(case, tag=f'highdim:normsq:d{d}')
+            try:
+                zd, exp = mv_to_dict(x.normsq()), mv_to_dict(x * ~x)
+            except Exception as e:
+                ctx.violation('raises', case, 'a multivector', repr(e)[:300], key=f'normsq:raises:{type(e).__name__}')
+                continue
+            if not dict_equal(zd, exp):
+                missing = sorted(set(exp) - set(zd))
+                ctx.violation('composition', {**case, 'blades_missing': missing}, canon_dict(exp), canon_dict(zd),
+                              key='normsq:composition' + (':dropped-blade' if missing else ''))
+
+
 def run(ctx):
     ctx.rule = ('per configuration (signatures d<=2 all, d=3,4 sampled, 2DPGA/3DPGA, seeded custom bases; d=5 thorough) ordered pairs of '
                 'key tuples: all subset pairs for d<=2 (sampled in quick), grade-block and random sparse patterns above; '
@@ -86,6 +144,7 @@ def run(ctx):
                 R.lines.append(f'gen6 {op} {tok} {ks(kx)} {ks(ky) if op != "normsq" else "-"}')
                 R.plan.append((case, canon_dict(zd)))
     R.flush()
+    highdim_pass(ctx)
     # the same multivector object after in-place updates of its coefficients (stale state)
     import numpy as np
     from fractions import Fraction
